@@ -46,6 +46,9 @@ POOL = {
     "both()": ["PUSH0", "SLOAD", ("PUSH", 1), "ADD", "PUSH0", "SSTORE", ("PUSH", 1), "SLOAD", ("PUSH", 1), "ADD", ("PUSH", 1), "SSTORE"],
     "swap()": ["PUSH0", "SLOAD", ("PUSH", 1), "SLOAD", "PUSH0", "SSTORE", ("PUSH", 1), "SSTORE"],
     "trap(uint256)": e2e.arg(0) + [("PUSH", 7), "EQ", "PUSH0", "SLOAD", ("PUSH", 2), "EQ", "AND", ("PUSHL", "bad"), "JUMPI", "STOP", ("LABEL", "bad")] + e2e.panic(1),
+    "setA(uint256)": e2e.arg(0) + ["PUSH0", "SSTORE"],
+    "setB(uint256)": e2e.arg(0) + [("PUSH", 1), "SSTORE"],
+    "setB2(uint256)": require(["PUSH0", "SLOAD"]) + e2e.arg(0) + [("PUSH", 1), "SSTORE"],
     "seed(uint256)": require([("PUSH", 3)] + e2e.arg(0) + ["LT"]) + e2e.arg(0) + [("PUSH", 5), "MUL", ("PUSH", 1), "SSTORE"],
 }
 GETTERS = [("x()", ["PUSH0", "SLOAD"] + ret_word()), ("y()", [("PUSH", 1), "SLOAD"] + ret_word()), ("bal()", ["SELFBALANCE"] + ret_word())]
@@ -68,6 +71,10 @@ INVARIANTS = {
     "y!=K": lambda K: fail_if(get("y()") + [("PUSH", K), "EQ"]),
     "bal==0": lambda K: fail_if(get("bal()") + ["ISZERO", "ISZERO"]),
     "bal==y": lambda K: fail_if(get("bal()") + get("y()") + ["EQ", "ISZERO"]),
+    "!(x==5&&y==7)": lambda K: fail_if(get("x()") + [("PUSH", 5), "EQ"] + get("y()") + [("PUSH", 7), "EQ", "AND"]),
+    # the same with two nested branches (a branch condition of an earlier frontier state must not constrain later ones)
+    "nested!(x==5&&y==7)": lambda K: get("x()") + [("PUSH", 5), "EQ", ("PUSHL", "a"), "JUMPI", "STOP", ("LABEL", "a")] + get("y()") + [
+        ("PUSH", 7), "EQ", ("PUSHL", "bad"), "JUMPI", "STOP", ("LABEL", "bad")] + e2e.panic(1),
     "x!=y+K": lambda K: fail_if(get("x()") + get("y()") + [("PUSH", K), "ADD", "EQ"]),
 }
 
@@ -104,6 +111,10 @@ def handmade():
         out.append(dict(fns=["restricted(uint256)"], inv="x!=K", K=3, depth=d, senders=("target", [S1, OWNER]), k=f"tgt2-d{d}", seed=0))
         out.append(dict(fns=["deposit()"], inv="bal==0", K=0, depth=d, senders=None, k=f"deposit-bal0-d{d}", seed=0))
         out.append(dict(fns=["deposit()"], inv="bal==y", K=0, depth=d, senders=None, k=f"deposit-baly-d{d}", seed=0))
+        out.append(dict(fns=["setA(uint256)", "setB(uint256)"], inv="!(x==5&&y==7)", K=0, depth=d, senders=None, k=f"setAB-d{d}", seed=0))
+        out.append(dict(fns=["setA(uint256)", "setB(uint256)"], inv="nested!(x==5&&y==7)", K=0, depth=d, senders=None, k=f"setABn-d{d}", seed=0))
+        out.append(dict(fns=["setB(uint256)", "setA(uint256)"], inv="nested!(x==5&&y==7)", K=0, depth=d, senders=None, k=f"setBAn-d{d}", seed=0))
+        out.append(dict(fns=["setA(uint256)", "setB2(uint256)"], inv="nested!(x==5&&y==7)", K=0, depth=d, senders=None, k=f"setAB2n-d{d}", seed=0))
         out.append(dict(fns=["unlock()", "inc()"], inv="x!=K", K=77, depth=d, senders=None, k=f"unlock-d{d}", seed=0))
         out.append(dict(fns=["inc()", "trap(uint256)"], inv="x<K", K=10, depth=d + 1, senders=None, k=f"trap-d{d+1}", seed=0))
     return out
